@@ -28,7 +28,7 @@ from concurrent.futures import ThreadPoolExecutor
 
 VERIF = os.path.dirname(os.path.dirname(os.path.abspath(__file__)))
 REPO = os.environ.get("VERIF_REPO", "/repo")
-COQ = os.path.join(VERIF, "coq")
+COQ = os.environ.get("VERIF_COQ") or os.path.join(VERIF, "coq")   # VERIF_COQ: private copy of the Coq tree for scratch runs
 THEORIES = os.path.join(COQ, "theories")
 GEN = os.path.join(THEORIES, "Gen")
 NCPU = int(os.environ.get("VERIF_JOBS", "16"))
